@@ -1,5 +1,6 @@
 import ShellOp.Proofs.WorkerC17
 import ShellOp.Proofs.HookQueues
+import ShellOp.Proofs.ShutdownWait
 import ShellOp.Generated.Facts
 /-!
 # C17 — shutdown stops the queues cleanly
@@ -198,6 +199,73 @@ theorem stop_cancels_exactly_the_descendants_of_the_set_context (c : Ctx) :
     Ctx.cancelledBy .set .set = true := by
   refine ⟨?_, by decide, by decide, by decide⟩
   simp [Ctx.cancelledBy]
+
+/-! ### `WaitStopWithTimeout` in every visiting order; `Shutdown()` against a monitor that is starting -/
+
+/-- **C17, the wait of Shutdown(), every visiting order.** The check of `WaitStopWithTimeout` ranges over
+the map of queues in an order Go chooses afresh each time. Whatever the order: the check answers "all
+stopped" exactly when every queue shows "stop" (it does not depend on which queue is visited first or
+last), and in every schedule, when a visit of all queues answers "all stopped" — the only way the wait
+ends ahead of its timeout — the worker goroutine of every queue has returned. -/
+theorem wait_ends_early_only_when_every_worker_exited (cfg : Cfg) (hfix : cfg.fix = true)
+    (ls : List Label) (hs : SingleStarter ls) (s : State) (h : run cfg init ls = some s)
+    (order : List QName) (hperm : order.Perm s.names)
+    (hret : waitCheck (statusesIn s order) = true)
+    (q : QName) (hq : q ∈ s.names) (qs : QState) (hqs : s.qs q = some qs) : qs.workers = [.stopped] :=
+  waitStop_sound cfg hfix ls hs s h (allStopped_of_waitCheck s order hperm hret) q hq qs hqs
+
+/-- The check itself is order-independent and is the conjunction over all queues. -/
+theorem waitCheck_every_order (l₁ l₂ : List QStatus) (h : l₁.Perm l₂) :
+    waitCheck l₁ = waitCheck l₂ ∧ (waitCheck l₁ = true ↔ ∀ st ∈ l₁, st = .stop) :=
+  ⟨waitCheck_perm h, waitCheck_true_iff l₁⟩
+
+/-- Non-vacuity: three queues, each of them in turn the busy one, every visiting order of a rotation. -/
+example : waitCheck [.run, .stop, .stop] = false ∧ waitCheck [.stop, .run, .stop] = false ∧
+    waitCheck [.stop, .stop, .run] = false ∧ waitCheck [.stop, .stop, .stop] = true := by decide
+
+/-- **Witness (what the theorem excludes).** A check that keeps only the status of the queue visited last
+(`stopped = q.Status == "stop"` without accumulation) answers "all stopped" while an earlier-visited
+queue is in the middle of its handler — and its answer depends on the visiting order. -/
+theorem last_one_wins_ends_the_wait_with_a_busy_worker :
+    waitCheckLast [.run, .stop] = true ∧ waitCheckLast [.stop, .run] = false ∧
+    waitCheck [.run, .stop] = false ∧ waitCheck [.stop, .run] = false := by decide
+
+open Lk in
+/-- **C17, the stop request gets through while a monitor is starting.** `Shutdown()` reaches
+`TaskQueues.Stop()` only after `KubeEventsManager.PauseHandleEvents()`, which needs the read lock of the
+monitor index. In the code (`StartMonitor`: RLock, look-up, RUnlock, then `monitor.Start`) this never
+depends on the API server: in every reachable state — the handler thread anywhere inside
+`StartMonitor`, the API server having answered or not — once shutdown is requested the Shutdown()
+thread's next step is enabled and brings it closer to the cancellation of the queues' context (at most
+4 own steps). -/
+theorem shutdown_request_reaches_queues_whatever_the_api_does (ls : List Lk.Label) (s : Lk.St)
+    (h : Lk.run false {} ls = some s) (hreq : s.sd ≠ .idle) (hnc : s.sd ≠ .cancelled) :
+    ∃ l s', sdNext s.sd = some l ∧ Lk.step false s l = some s' ∧ sdDist s'.sd < sdDist s.sd ∧ sdDist s.sd ≤ 4 := by
+  have hw := run_code_writer ls {} s h rfl
+  obtain ⟨sm, sd, readers, writer, smHolds, api⟩ := s
+  simp at hw; subst hw
+  cases sd <;> simp_all [sdNext, Lk.step, sdDist]
+
+open Lk in
+/-- Non-vacuity: the handler thread is inside `monitor.Start`, the API server silent; shutdown is
+requested and runs to the cancellation. -/
+example : ((Lk.run false {} [.smLock, .smUnlock, .smStart, .sdRequest, .sdSchedStop, .sdPauseLock,
+    .sdPauseUnlock, .sdCancel]).map fun s => (s.sm, s.sd, s.apiAnswered)) = some (.starting, .cancelled, false) := by
+  decide
+
+open Lk in
+/-- **Witness (what the theorem excludes).** If `StartMonitor` keeps the (write) lock over
+`monitor.Start`, a shutdown requested while the monitor waits for the API server stands before
+`PauseHandleEvents` and stays there — no step of any thread changes that — until the API server
+answers: `TaskQueues.Stop()` is not reached, the queues keep executing. -/
+theorem lock_held_over_monitor_start_blocks_shutdown (ls : List Lk.Label) (hl : ∀ l ∈ ls, l ≠ .apiAnswer)
+    (s0 s : Lk.St) (h0 : Lk.run true {} [.smLock, .smStart, .sdRequest, .sdSchedStop] = some s0)
+    (h : Lk.run true s0 ls = some s) : s.sd = .schedStopped ∧ Lk.step true s .sdPauseLock = none := by
+  have hs0 : Stuck s0 := by
+    simp [Lk.run, Lk.step] at h0; subst h0; simp [Stuck]
+  have hs := run_stuck ls s0 s hl h hs0
+  obtain ⟨_, h2, _, h4⟩ := hs
+  exact ⟨h4, by simp [Lk.step, h2, h4]⟩
 
 /-! ### Non-vacuity and witnesses -/
 
